@@ -56,7 +56,7 @@ class Unit:
         self.flavours = flavours or {"quick": ["asan-cc"], "thorough": ["asan-cc"]}
         self.shards = shards or {"quick": 4, "thorough": 16}
         self.gen = gen  # optional callable(path, tier) generating the source
-        self.args = list(args)
+        self.args = args if isinstance(args, dict) else list(args)
         self.libs = list(libs)
         self.only_kinds = set(only_kinds) if only_kinds else None  # keep only these violation kinds from this unit (reuse of another property's workload)
 
@@ -219,7 +219,7 @@ def run_check(prop, tier, seed, P, only_units=None, quiet=False):
             out = os.path.join(rundir, f"{u.name}.{fl}.{i}.jsonl")
             base, _ = flavour_parts(fl)
             cmd = [w.replace("{out}", out) for w in FLAVOURS[base].get("wrap", [])] + [built[(u.name, fl)], "--out", out, "--shard", f"{i}/{n}",
-                                                          "--seed", str(seed), "--tier", tier] + u.args
+                                                          "--seed", str(seed), "--tier", tier] + (u.args.get(tier, []) if isinstance(u.args, dict) else u.args)
             jobs.append((u, fl, i, out, cmd))
     env = dict(os.environ)
     env.update(RUN_ENV)
@@ -439,6 +439,6 @@ def replay(path):
     env.update(RUN_ENV)
     env["ASAN_OPTIONS"] = env["ASAN_OPTIONS"].replace("symbolize=0", "symbolize=1")
     env["UBSAN_OPTIONS"] = "print_stacktrace=1:exitcode=67:halt_on_error=1"
-    cmd = [exe, "--case", str(rep["case"]), "--seed", str(rep["seed"]), "--tier", rep["tier"], "--verbose"] + u.args
+    cmd = [exe, "--case", str(rep["case"]), "--seed", str(rep["seed"]), "--tier", rep["tier"], "--verbose"]
     print("+", " ".join(cmd))
     return subprocess.call(cmd, env=env)
